@@ -2002,6 +2002,9 @@ class TypeEnv:
         fsym = prog.resolve_expr_symbol(self.mod, f) if isinstance(f, (ast.Name, ast.Attribute)) else None
         if isinstance(fsym, tuple) and fsym[0] == 'ext' and fsym[1] in EXT_OBJECT_FACTORIES:
             return ('extobj', fsym[1])
+        if isinstance(f, ast.Attribute) and f.attr == 'fromkeys' and isinstance(f.value, ast.Name) and f.value.id == 'dict' and \
+                prog.resolve_name(self.mod, 'dict') is None and 'dict' not in self.vars and e.args:
+            return ('dict', self.elem_type(self.type_of(e.args[0])), self.type_of(e.args[1]) if len(e.args) > 1 else NONE)
         if isinstance(f, ast.Attribute) and f.attr == '_replace':
             rt = strip_opt(self.type_of(f.value))
             if rt[0] == 'cls' and rt[1] in prog.classes and any(str(b).split('.')[-1] == 'NamedTuple' for b in prog.classes[rt[1]].bases):
@@ -2299,6 +2302,10 @@ class TypeEnv:
                 if isinstance(a, ClassInfo) and f.attr in a.methods:
                     return [a.methods[f.attr]]
             return [('builtin', f'object.{f.attr}')]
+        if isinstance(f, ast.Attribute) and isinstance(f.value, ast.Name) and f.value.id in ('dict', 'str', 'int', 'bytes') and \
+                f.value.id not in self.vars and f.value.id not in self._assign_sites and prog.resolve_name(self.mod, f.value.id) is None \
+                and f.attr in ('fromkeys', 'maketrans', 'from_bytes', 'fromhex'):
+            return [('builtin', f'{f.value.id}.{f.attr}')]      # alternative constructors of builtin types
         ft = self.type_of(f)
         if ft[0] == 'opt' and ft[1][0] == 'type':
             ft = ft[1]          # calling None is the caller's obligation (optional-call), the callees are those of the class
